@@ -560,6 +560,7 @@ int KSI_TreeBuilder_close(KSI_TreeBuilder *builder) {
 	int res = KSI_UNKNOWN_ERROR;
 	KSI_TreeNode *root = NULL;
 	KSI_TreeNode *tmp = NULL;
+	size_t rootAt = 0;
 
 	if  (builder == NULL) {
 		res = KSI_INVALID_ARGUMENT;
@@ -571,20 +572,24 @@ int KSI_TreeBuilder_close(KSI_TreeBuilder *builder) {
 	if (builder->rootNode == NULL) {
 		size_t i;
 
-		/* Finalize the forest of complete binary trees into a single tree. */
+		/* Finalize the forest of complete binary trees into a single tree. The intermediate root
+		 * is kept in the stack, so that the builder still owns every node if a join fails. */
 		for (i = 0; i < KSI_TREE_BUILDER_STACK_LEN; i++) {
 			KSI_TreeNode *node = builder->stack[i];
-			builder->stack[i] = NULL;
 
 			if (node == NULL) continue;
 
 			if (root == NULL) {
 				root = node;
+				rootAt = i;
 			} else {
 				res = KSI_TreeNode_join(builder->ctx, builder->hsr, node, root, &tmp);
 				if (res != KSI_OK) goto cleanup;
 
+				builder->stack[rootAt] = NULL;
+				builder->stack[i] = tmp;
 				root = tmp;
+				rootAt = i;
 				tmp = NULL;
 			}
 		}
@@ -599,6 +604,7 @@ int KSI_TreeBuilder_close(KSI_TreeBuilder *builder) {
 		goto cleanup;
 	}
 
+	builder->stack[rootAt] = NULL;
 	builder->rootNode = root;
 
 	res = KSI_OK;
